@@ -741,3 +741,50 @@ def check_start_scope(ctx):
         ctx.holds('START-SCOPE', 'valjean.cosette.run',
                   f'{n} description-time methods: no file-system probe '
                   f'followed by a raise, no OSError raised', nontrivial=True)
+
+
+# ------------------------------------------------------------ CALL-LOOP ---
+
+def check_call_loop(ctx):
+    """"at the first non-zero status the remaining commands are not run and
+    the task is FAILED": run() guarantees it for the commands of ONE call.  A
+    task that calls run() several times in a loop (one build target per
+    call) must itself stop at the first call that did not end DONE: otherwise
+    the later commands still run and the status of the LAST call is the
+    status of the task (targets ['broken', 'good'] -> DONE)."""
+    program = ctx.program
+    n = 0
+    for modname in ('valjean.cosette.code', RUNMOD):
+        mod = program.module(modname)
+        for func in mod.functions.values():
+            for loop in [l for l in walk_local(func.node)
+                         if isinstance(l, (ast.For, ast.While))]:
+                runs = [c for s_ in loop.body for c in ast.walk(s_)
+                        if isinstance(c, ast.Call) and isinstance(
+                            c.func, ast.Name) and c.func.id == 'run']
+                if not runs or func.key == RUN:
+                    continue
+                n += 1
+                program.consulted.add(mod.relpath)
+                stops = False
+                for node in ast.walk(loop):
+                    if isinstance(node, ast.If) and any(
+                            isinstance(x, (ast.Break, ast.Return, ast.Raise))
+                            for b in node.body for x in ast.walk(b)) and any(
+                                w in txt(node.test)
+                                for w in ('status', 'ret', 'DONE', 'FAILED',
+                                          'code')):
+                        stops = True
+                ctx.decide('CALL-LOOP', func,
+                           f'{func.name}: loop calling {txt(runs[0])[:40]} '
+                           f'stops at the first failure', stops,
+                           at=func.where(loop),
+                           detail=None if stops else
+                           'every iteration overwrites the status: a failing '
+                           'command followed by a succeeding one leaves the '
+                           'task DONE, and the commands after the failure '
+                           'are run')
+    if not n:
+        ctx.holds('CALL-LOOP', 'valjean.cosette.code / run',
+                  'no task calls run() in a loop: one call, whose commands '
+                  'stop at the first failure (RUN-LOOP)', nontrivial=False)
